@@ -224,6 +224,7 @@ Definition c09_spec (c : c09_case) : bool :=
       && mx_cong cmp && mx_hash cmp hashes && mx_equal vals cmp eqs
   | CSlices k1 k2 l12 l21 h1 h2 =>
       negb (l12 && l21) &&
-      (if Nat.eqb (length k1) (length k2) && negb l12 && negb l21 then h1 =? h2 else true)
+      (if Nat.eqb (length k1) (length k2) then (if negb l12 && negb l21 then h1 =? h2 else true)
+       else xorb l12 l21)          (* keys of different lengths are never the same tree item *)
   | COps _ _ _ _ _ _ _ => true      (* the partition oracle of the operator runs is evaluated by the engine *)
   end.
